@@ -187,7 +187,75 @@ func JudgeC01(in *Input, A, B *core.Entry, p *Plan) (r Result) {
 		}
 	}
 	r.NonTrivial = len(p.Conflicts) > 0 || destroysSomething(p.Alpha) || destroysSomething(p.Beta)
+	if v, class := revertAfterAgreement(in, A, B, p); v != "" {
+		r.Violation = v
+		return
+	} else if class != "" {
+		r.Classes = append(r.Classes, class)
+	}
 	return
+}
+
+// revertAfterAgreement looks one cycle further. After the plan has been
+// applied exactly, wherever both endpoints hold the same synchronizable entry
+// X, X is what was last synchronized there. If the recorded state holds a
+// different entry Y at such a path, the history is continued: one endpoint
+// puts Y back (a modification since the last synchronization) and the next
+// cycle is planned from the recorded state; it must not destroy Y.
+func revertAfterAgreement(in *Input, A, B *core.Entry, p *Plan) (violation, class string) {
+	anc2, A2, B2, e := applyPlanIdeal(in.Anc, A, B, p)
+	if e != "" {
+		return "", ""
+	}
+	type cand struct {
+		path string
+		x, y *core.Entry
+	}
+	var cands []cand
+	var walk func(path string, a, b, anc *core.Entry)
+	walk = func(path string, a, b, anc *core.Entry) {
+		if a == nil || b == nil || !tree.IsSyncKind(a.Kind) || !tree.IsSyncKind(b.Kind) || !tree.ShallowEqual(a, b) {
+			return
+		}
+		if !tree.ShallowEqual(anc, a) {
+			cands = append(cands, cand{path, a, anc})
+			return
+		}
+		for _, n := range tree.Names(a) {
+			walk(tree.Join(path, n), a.Contents[n], b.Contents[n], anc.Contents[n])
+		}
+	}
+	walk("", A2, B2, anc2)
+	for _, c := range cands {
+		class = "recorded-state-differs-from-agreed-content"
+		if c.y == nil || !tree.IsSyncKind(c.y.Kind) {
+			continue
+		}
+		truth, ok := tree.ApplyModel(anc2, c.path, c.x)
+		if !ok {
+			continue
+		}
+		for _, side := range []string{"alpha", "beta"} {
+			A3, B3 := A2, B2
+			if side == "alpha" {
+				A3, ok = tree.ApplyModel(A2, c.path, tree.Clone(c.y))
+			} else {
+				B3, ok = tree.ApplyModel(B2, c.path, tree.Clone(c.y))
+			}
+			if !ok {
+				continue
+			}
+			_, alphaT, betaT, _ := core.Reconcile(anc2, A3, B3, in.Mode)
+			v := checkOldAndDestroyed("alpha", alphaT, A3, truth)
+			if v == "" {
+				v = checkOldAndDestroyed("beta", betaT, B3, truth)
+			}
+			if v != "" {
+				return fmt.Sprintf("after the planned cycle was applied exactly both endpoints hold %s at %q, but the recorded last-synchronized state holds %s there; %s then puts %s back and the next cycle loses that modification: %s", tree.Render(c.x), c.path, tree.Render(c.y), side, tree.Render(c.y), v), class
+			}
+		}
+	}
+	return "", class
 }
 
 // JudgeC02: directional modes.
